@@ -396,11 +396,30 @@ func (jp *jobProvider) refreshFile(stat os.FileInfo, filename string, symlink st
 }
 
 func (jp *jobProvider) checkFileWasTruncated(job *Job, size int64) {
-	lastOffset := job.seek(0, io.SeekCurrent, "check file truncation")
-
-	if lastOffset > size {
-		jp.truncateJob(job)
+	if job.isCompressed {
+		return
 	}
+
+	job.mu.Lock()
+	file := job.file
+	job.mu.Unlock()
+
+	// Only look at the position: a worker may be reading the file right now
+	// and keeps its own account in job.curOffset.
+	lastOffset, err := file.Seek(0, io.SeekCurrent)
+	if err != nil || lastOffset <= size {
+		return
+	}
+
+	// The size comes from a stat made when the notification was received; the
+	// file may have grown and been read further since. Stat it again, after
+	// the position was taken, so a growing file never looks truncated.
+	stat, err := file.Stat()
+	if err != nil || lastOffset <= stat.Size() {
+		return
+	}
+
+	jp.truncateJob(job)
 }
 
 func isCompressed(mimeType string) bool {
